@@ -183,6 +183,7 @@ func genOverlay(tmp string, hs []Harness) map[string]string {
 		return nil
 	})
 	ov[filepath.Join(repoDir, "zz_verif", "verif.go")] = filepath.Join(verifDir, "harness", "verif", "verif.go")
+	ov[filepath.Join(repoDir, "zz_verif", "verif_hooks.go")] = filepath.Join(verifDir, "harness", "verif", "verif_hooks.go")
 	for _, h := range hs {
 		ov[harnessTarget(h)] = filepath.Join(verifDir, "harness", h.File)
 		for _, d := range h.Deps {
@@ -736,6 +737,7 @@ type replayFile struct {
 	Msg      string            `json:"msg,omitempty"`
 	Params   map[string]int    `json:"params,omitempty"`
 	Inputs   []interp.InputRec `json:"inputs"`
+	HookPlan map[string][]int  `json:"hook_plan,omitempty"`
 }
 
 var pkgClause = regexp.MustCompile(`(?m)^package\s+(\w+)`)
@@ -757,7 +759,7 @@ func nativeReplay(h Harness, rfPath string) (string, string) {
 	ovj, _ := json.Marshal(map[string]any{"Replace": ov})
 	ovPath := filepath.Join(tmp, "overlay.json")
 	os.WriteFile(ovPath, ovj, 0o644)
-	cmd := exec.Command("go", "test", "-vet=off", "-count=1", "-run", "^TestVerifReplay$", "-timeout", "120s", "-overlay", ovPath, "./"+harnessPkgDir(h))
+	cmd := exec.Command("go", "test", "-tags", "verif", "-vet=off", "-count=1", "-run", "^TestVerifReplay$", "-timeout", "120s", "-overlay", ovPath, "./"+harnessPkgDir(h))
 	cmd.Dir = repoDir
 	cmd.Env = append(goEnv(), "VERIF_REPLAY="+rfPath)
 	out, _ := cmd.CombinedOutput()
@@ -794,7 +796,7 @@ func writeReplay(prop string, h Harness, tier string, ob interp.Obligation) stri
 	if ob.Kind == "nopanic" {
 		expect = "panic"
 	}
-	rf := replayFile{Harness: h.Name, Property: prop, Tier: tier, Expect: expect, Msg: ob.Msg, Params: h.tier(tier).Params, Inputs: ob.Inputs}
+	rf := replayFile{Harness: h.Name, Property: prop, Tier: tier, Expect: expect, Msg: ob.Msg, Params: h.tier(tier).Params, Inputs: ob.Inputs, HookPlan: ob.HookPlan}
 	b, _ := json.MarshalIndent(rf, "", " ")
 	id := regexp.MustCompile(`[^A-Za-z0-9_.-]+`).ReplaceAllString(ob.ID, "_")
 	if len(id) > 60 {
@@ -1009,6 +1011,7 @@ func cmdGoTest(args []string) {
 	defer os.RemoveAll(tmp)
 	ov := genOverlay(tmp, nil)
 	delete(ov, filepath.Join(repoDir, "zz_verif", "verif.go"))
+	delete(ov, filepath.Join(repoDir, "zz_verif", "verif_hooks.go"))
 	ovj, _ := json.Marshal(map[string]any{"Replace": ov})
 	ovPath := filepath.Join(tmp, "overlay.json")
 	os.WriteFile(ovPath, ovj, 0o644)
